@@ -7,7 +7,7 @@ import re
 import engine
 import gen
 from engine import History, parse_snapshot, split_line, present, data_bytes
-from props import Prop, Walk, CORE_OPS, REGISTRY, final_key, slot, text_hex, hex_text
+from props import Prop, Walk, CORE_OPS, REGISTRY, final_key, slot, text_hex, hex_text, BLANK
 from props_core import SpecProp, latent_ok, spec_parse
 
 # ------------------------------------------------------------------ helpers
@@ -81,8 +81,9 @@ def build_graph(rng, hd, cap, n, k, m, stale=False, data=True, tree=False, ids=N
         # a past life of two of the vertices themselves: edges but no data on the first one, then collected;
         # the ADD loop below re-adds them (a recycled slot must come back blank)
         a, b = ids[0], ids[1]
+        past = rng.pick(["V0c", "V", "B0000000000000000:0", "Bffffffffffffffff:0", "V" + "ab" * 20])   # also zero-length data
         ops += ["ADD %s %d" % (hd, a), "ADD %s %d" % (hd, b), "BIND %s %d %d %s" % (hd, a, b, gen.lab_alpha(8)),
-                "BIND %s %d %d %s" % (hd, b, a, gen.lab_greek(0x3c3)), "PUT %s %d V0c" % (hd, b), "DATA %s %d" % (hd, b)]
+                "BIND %s %d %d %s" % (hd, b, a, gen.lab_greek(0x3c3)), "PUT %s %d %s" % (hd, b, past), "DATA %s %d" % (hd, b)]
     if many_groups and cap - len(ids) >= 30:
         # exactly 14 groups alive (the documented limit): 13 bystander pairs, the graph proper forms at most one more
         rest = [v for v in range(cap) if v not in ids]
@@ -164,7 +165,7 @@ class C18(Prop):
         for i in range(n):
             r = rng.fork()
             N = r.pick([2, 4, 16])
-            cap = r.pick([6, 12, 20, 256])
+            cap = r.pick([6, 12, 20, 256, 600])
             k = 1 + r.below(min(10, cap - 2))
             ops1, ids = build_graph(r, "g", cap, N, k, r.below(2 * k + 1), stale=r.chance(1, 2), dangling=r.chance(1, 3),
                                     many_groups=(cap == 256 and r.chance(1, 2)))
@@ -292,7 +293,7 @@ class C20(Prop):
         for i in range(n):
             r = rng.fork()
             N = r.pick([1, 2, 4, 16])
-            cap = r.pick([4, 8, 14, 30, 256])
+            cap = r.pick([4, 8, 14, 30, 256, 600])
             k = 1 + r.below(min(12, cap))
             ops1, ids = build_graph(r, "g", cap, N, k, r.below(3 * k + 1), stale=r.chance(1, 3), dangling=r.chance(1, 3),
                                     many_groups=(cap == 256 and r.chance(1, 2)))
@@ -347,14 +348,27 @@ class C20(Prop):
         return None
 
     def oracle(self, h, il):
+        hasdata = {}     # "v has data" from the calls themselves: a put() since v was last created
         for i, t, res, before, after in Walk(h, il):
             snap = after.get(t[1]) if len(t) > 1 else None
+            if t[0] == "ADD" and res == "ok" and t[1] == "g":
+                s0 = before.get("g")
+                if s0 is not None and slot(s0, int(t[2]))["branch"] == 0:
+                    hasdata[int(t[2])] = False
+            elif t[0] == "PUT" and res == "ok" and t[1] == "g":
+                hasdata[int(t[2])] = True
             if snap is None or res in ("PANIC", "err"):
                 if t[0] in ("INSPECT", "DEBUG", "VPRINT") and res == "PANIC":
                     return {"reason": "%s panicked" % t[0], "index": i, "expected": "a listing", "observed": "PANIC"}
                 continue
             if t[0] in ("INSPECT", "VPRINT") and slot(snap, int(t[2]))["branch"] == 0:
                 continue       # the property is about present start vertices
+            if t[0] in ("VPRINT", "DEBUG") and t[1] == "g":
+                for v in present(snap):
+                    if v in hasdata and hasdata[v] != (slot(snap, v)["pers"] != "E"):
+                        return {"reason": "vertex %d %s according to the calls made, the printed state says the opposite"
+                                          % (v, "has data" if hasdata[v] else "has no data (nothing was put since it was created)"),
+                                "index": i, "expected": "marker iff data", "observed": il[i][:300]}
             if t[0] == "INSPECT":
                 f = self.check_inspect(hex_text(res), snap, int(t[2]), i)
                 if f:
@@ -417,7 +431,7 @@ class C13(Prop):
         for i in range(n):
             r = rng.fork()
             N = r.pick([2, 3, 4, 16])
-            cap = r.pick([5, 9, 14, 20, 64, 200, 256])
+            cap = r.pick([5, 9, 14, 20, 64, 200, 256, 600])
             k = 1 + r.below(min(14, cap))
             ops1, ids = build_graph(r, "g", cap, N, k, r.below(3 * k + 1), stale=False, data=r.chance(1, 2),
                                     many_groups=(cap >= 64 and r.chance(1, 3)))
@@ -666,6 +680,22 @@ class C12(MergeProp):
             if res == "ok" and missed:
                 return {"reason": "merge() returned Ok although present vertices %s of the right graph were never reached" % missed,
                         "index": i, "expected": "err " + ",".join(map(str, missed)), "observed": res}
+            if res == "ok" and g1 is not None and slot(g1, int(t[3]))["branch"] != 0:
+                # "mapped onto a vertex of the left graph": the image of every right vertex (the end of its labelled
+                # path from `left`) is a present vertex afterwards
+                todo, seen = [(int(t[4]), int(t[3]))], set()
+                while todo:
+                    rv, gv = todo.pop()
+                    if rv in seen:
+                        continue
+                    seen.add(rv)
+                    for lab, w in (r0["V"].get(rv) or BLANK)["edges"]:
+                        tg = dict(slot(g1, gv)["edges"]).get(lab)
+                        if tg is None or slot(g1, tg)["branch"] == 0:
+                            return {"reason": "merge() returned Ok but right vertex %d (under %s of right vertex %d) has no present image "
+                                              "in the left graph (image %s)" % (w, lab, rv, tg), "index": i,
+                                    "expected": "a present vertex under that label of left vertex %d" % gv, "observed": il[i][:400]}
+                        todo.append((w, tg))
             if res.startswith("err"):
                 named = res[4:]
                 if not missed:
@@ -921,7 +951,7 @@ class C08(Prop):
 
 class C09(Prop):
     pid = "C09"
-    ops = CORE_OPS | {"SAVE", "LOADCUTS", "LOADFLIP", "LOAD"}
+    ops = CORE_OPS | {"SAVE", "LOADCUTS", "LOADFLIP", "LOAD", "CUTSAMPLE"}
     exhaustive = True
     rule = ("images of graphs reached by random histories (heap-encoded data, multi-edge vertices, 2/3/4-byte label "
             "characters, groups, collected slots; capacities 1..40) are cut at EVERY byte position 0 <= k < size (exhaustive "
@@ -941,6 +971,12 @@ class C09(Prop):
             for _ in range(20 if tier == "quick" else 60):
                 ops.append("LOADFLIP img %d %02x f" % (r.below(100000), 1 << r.below(8)))
             hs.append(History("c09-%d" % i, h0.n, ops))
+        # one image of more than 64 KiB (capacity 2048): sampled cut positions, the neighbourhood of every 64 KiB boundary
+        # and the last 64 positions (the model is not run on these cuts: C09_cut covers every cut of every image)
+        big = ["NEW g 2048", "ADD g 0", "ADD g 2047", "BIND g 0 2047 %s" % gen.lab_str("abcdefgh"), "PUT g 2047 V%s" % ("ab" * 300),
+               "ADD g 1024", "BIND g 2047 1024 %s" % gen.lab_greek(0x1d711), "SAVE g img", "CUTSAMPLE img %d" % (1009 if tier == "quick" else 97),
+               "LOAD img h"]
+        hs.append(History("c09-big", 4, big))
         return hs
 
     def timeout(self, tier):
@@ -948,7 +984,7 @@ class C09(Prop):
 
     def oracle(self, h, il):
         for i, (op, line) in enumerate(zip(h.ops, il)):
-            if op.startswith("LOADCUTS"):
+            if op.startswith("LOADCUTS") or op.startswith("CUTSAMPLE"):
                 res = line.split(" -> ", 1)[1]
                 m = re.match(r"cuts n=(\d+) ok=\[(.*?)\] panic=\[(.*?)\]", res)
                 if not m:
@@ -990,7 +1026,8 @@ def rnd_gap(rng, fancy):
     if fancy and rng.chance(1, 12):
         s += rng.pick(["\u00a0", "\u2003", "\u3000", "\u0085"])      # Unicode White_Space is trimmed like the ASCII blanks
     if fancy and rng.chance(1, 6):
-        s += "# " + rng.pick(["note", "ADD(9);", "x,y)", ""]) + "\n" + rnd_ws(rng, 1)
+        s += "# " + rng.pick(["note", "ADD(9);", "x,y)", "", "two vertices; the edge comes next", "off: PUT(1, 00-00); ADD(7); BIND(",
+                             "$x ν3 (", "# nested # marks"]) + "\n" + rnd_ws(rng, 1)
     return s
 
 
@@ -1001,8 +1038,12 @@ def script_program(rng, cap, n):
     cmds, direct = [], []
     vars_, nvars = {}, 0
     ids = list(range(min(cap, 6)))
-    for _ in range(2 + rng.below(10)):
-        k = rng.weighted([("add", 5), ("addvar", 3), ("bind", 6), ("put", 4)])
+    if cap >= 200 and rng.chance(1, 2):
+        base = rng.pick([120, 126, 250])
+        ids = list(range(base, min(cap, base + 6)))        # literal ids with three digits, across 128, up to the last id
+    many = cap >= 64 and rng.chance(1, 12)          # a long script with dozens of distinct variables
+    for step in range(45 if many else 2 + rng.below(10)):
+        k = "addvar" if many and step < 38 else rng.weighted([("add", 5), ("addvar", 3), ("bind", 6), ("put", 4)])
         pres = sorted(t.present)
         if k == "add":
             v = rng.pick(ids)
@@ -1010,7 +1051,7 @@ def script_program(rng, cap, n):
             direct.append("ADD h %d" % v)
             t.add(v)
         elif k == "addvar":
-            name = rng.pick(["x", "ν1", "1", "foo", "νfoo", "v%d" % nvars])
+            name = "w%d" % nvars if many else rng.pick(["x", "ν1", "1", "foo", "νfoo", "v%d" % nvars])
             if name in vars_:
                 v = vars_[name]
             else:
@@ -1051,7 +1092,7 @@ def script_program(rng, cap, n):
             if not pres:
                 continue
             v = rng.pick(pres)
-            bs = bytes(rng.below(256) for _ in range(1 + rng.below(11)))
+            bs = bytes(rng.below(256) for _ in range(rng.pick([16, 255, 256, 300]) if rng.chance(1, 12) else 1 + rng.below(11)))
             inv = {v2: k2 for k2, v2 in vars_.items()}
             a = ("var", inv[v]) if v in inv and rng.chance(1, 2) else ("lit", v)
             cmds.append(("PUT", [a, ("data", bs)]))
@@ -1114,7 +1155,7 @@ class C14(Prop):
             hs.append(History("c14-%d" % i, N, ops, {"count": len(cmds), "text": txt,
                                                        "vars": any(a[0] == "var" for _, args in cmds for a in args)}))
             if i < nf and txt:
-                alphabet = ["(", ")", ";", ",", "#", "$", "-", "g", "A", " ", "\n", "ν", "1"]
+                alphabet = FAULT_CHARS
                 for pos in range(len(txt)):
                     muts = [txt[:pos] + txt[pos + 1:], txt[:pos] + r.pick(alphabet) + txt[pos + 1:],
                             txt[:pos] + r.pick(alphabet) + txt[pos:]]
@@ -1158,6 +1199,33 @@ class C14(Prop):
 
 
 # ------------------------------------------------------------------ C07
+
+FAULT_CHARS = ["(", ")", ";", ",", "#", "$", "-", "g", "G", "A", " ", "\n", "\t", "ν", "1", "0", "f",
+               "٣", "३", "３", "߂", "é", "α", "Ω", "+", "\u00a0", "\u2003", "²", "Ⅷ", "\U0001d7d8"]
+
+
+def script_fault_histories(rng, count, prefix):
+    """deploy_to() is a call like any other: a malformed text must come back as Err, never as a panic.  Single-character
+    faults (deletion / substitution / insertion) at random positions of well-formed programs, with characters from several
+    scripts (decimal digits that are not ASCII, letters, other white space); the model decides Err / Ok / panic."""
+    hs = []
+    for i in range(count):
+        r = rng.fork()
+        N = r.pick([2, 4, 16])
+        cap = r.pick([6, 10, 16, 64])
+        cmds, _ = script_program(r, cap, N)
+        txt = render_script(r, cmds, fancy=r.chance(1, 2))
+        if not txt:
+            continue
+        for j in range(24):
+            pos = r.below(len(txt))
+            ch = r.pick(FAULT_CHARS)
+            k = r.below(4)
+            mt = txt[:pos] + txt[pos + 1:] if k == 0 else txt[:pos] + ch + txt[pos:] if k == 1 else txt[:pos] + ch + txt[pos + 1:]
+            hs.append(History("%sf%d-%d" % (prefix, i, j), N,
+                              ["NEW f %d" % cap, "SCRIPT f %s" % text_hex(mt), "KEYS f"], {"fault": True, "cap": cap, "n": N}))
+    return hs
+
 
 def malformed_history(rng, hid):
     """sequences that violate the limits and preconditions"""
@@ -1219,9 +1287,17 @@ class C07(SpecProp):
         n = 2000 if tier == "quick" else 50000
         hs = [malformed_history(rng.fork(), "c07-m%d" % i) for i in range(n)]
         hs += self.core_mix(rng, tier, 600, 30000, "c07-")
+        hs += script_fault_histories(rng.fork(), 60 if tier == "quick" else 1500, "c07-s")
         return hs
 
     def oracle(self, h, il):
+        if h.meta.get("fault"):
+            # C14_step_err: the model answers Err for a malformed command; a panic there is a call that does not complete
+            ml = self.model_lines.get(h.hid)
+            if ml and len(ml) > 1 and len(il) > 1 and ml[1].startswith("SCRIPT -> err") and il[1].startswith("SCRIPT -> PANIC"):
+                return {"reason": "deploy_to() of a malformed script panics instead of returning Err (a call that exceeds no limit does not complete)",
+                        "index": 1, "expected": "err", "observed": "PANIC   text=" + repr(hex_text(h.ops[1].split()[2]))[:300]}
+            return None
         f = self.spec_oracle(h, il)
         if f is not None:
             return f
@@ -1279,11 +1355,19 @@ class C19(SpecProp):
     assumptions = ["run-to-run determinism of the real process is observed on 3 processes per history, not proved (DESIGN.md section 12)"]
     ops = CORE_OPS | {"SLICE", "MERGE", "KEYS"}
 
-    CONFIGS = [(None, None), (16, 256), (4, None), (None, 64)]
+    CONFIGS = [(None, None), (16, 256), (4, None), (None, 64), (8, 128)]
 
     def generate(self, rng, tier):
         n = 300 if tier == "quick" else 5000
         hs = []
+        for j, cap0 in enumerate([3, 4, 5, 6]):
+            # the allocator has reached the capacity of the small configuration; a merge that overlaps completely needs no id
+            ops = ["NEW g %d" % cap0, "ADD g 0"] + ["NEXT g"] * (cap0 - 1) + ["ADD g 1", "BIND g 0 1 %s" % gen.lab_alpha(0),
+                   "NEW r %d" % cap0, "ADD r 0", "ADD r 1", "BIND r 0 1 %s" % gen.lab_alpha(0), "PUT r 1 V2a",
+                   "MERGE g r 0 0", "KEYS g", "KIDS g 0", "DATA g 1", "KEYS g"]
+            for ci, (nn, cc) in enumerate([(1, cap0), (16, 256), (2, 64)]):
+                ops2 = [re.sub(r"^NEW (\w+) \d+$", lambda m: "NEW %s %d" % (m.group(1), cc), o) for o in ops]
+                hs.append(History("c19-full%d@%d" % (j, ci), nn, ops2, {"base": "c19-full%d" % j, "cfg": ci}))
         for i in range(n):
             r = rng.fork()
             n0 = r.pick([1, 2, 3, 4])
